@@ -10,6 +10,10 @@ E3 = "procsim (process-level simulator: strace syscall fault / kill injection)"
 
 # id -> (engine, category, technique, level text, level note, design ref)
 CHECKS = {
+ "C16": (E1, "exploration",
+   "deterministic simulation of a Byzantine role namer: hostile delegated role names through client load (URLs requested, datastore), cache_metadata and the real editor's write, observed as I/O on a sandbox tree",
+   "Role names over {/ \\ . % ? # : space \\x01 e-acute a 1} enumerated to length 4 (thorough: all 22 620), a hostile dictionary ('.', '..', 'a%2Fb' next to 'a/b', 'x.json', '1.root', ...) and seeded names to length 64; 1..3 roles per repository. Oracle: every requested URL is <metadata base>/<one plain segment>; datastore, cache and editor output hold only plain files directly inside and nothing else in the sandbox changes; N distinct role names give N distinct files at every one of the four places.",
+   "Same-name delegated/top-level collisions (targets, 1.root, latest_known_time ...) are checked for containment only. tokio::fs writes are drained (single FIFO blocking thread + barrier) before each observation.", "DESIGN.md §5 C16"),
  "C12": (E1, "exploration",
    "deterministic simulation of an on-path adversary and a foreign conforming publisher: single in-flight mutations of validly signed documents (version-only pins, so signatures are the only defence), role substitution under a shared key, documents with unknown members signed over an independent canonical-JSON encoder",
    "Per run one role type (root, timestamp, snapshot, targets, delegated) gets a foreign document with unknown members at one struct-like level (names with space, '!', quote, backslash, non-ASCII, prefix pairs) and exactly one in-flight change: none, re-ordering, whitespace, junk signature, scalar change / member insert / delete / duplicate anywhere, _type rewrite, timestamp<->snapshot swap under a key authorised for both. Oracle: whatever is accepted exposes content whose reference canonical form equals what was signed; untampered and benignly changed documents are not refused for signature or parse reasons; swapped roles are refused.",
